@@ -329,6 +329,11 @@ func (s *Storer) newAofROpenObserver(reader *AofRotateReader, ra *dataSet) func(
 		if aof != nil {
 			aof.AddReader(reader)
 		}
+		// a reader that moves on to its next segment is registered with no segment for a moment: a reset of
+		// the dataset in that moment cannot see it, and it would poll the removed file for ever
+		if ra.IsClosed() {
+			reader.Close()
+		}
 	}
 }
 
